@@ -49,6 +49,7 @@ func reregOne(c *vf.Ctx, seed int64, batch, iter int, race bool) {
 		it.add(w)
 		all = append(all, w)
 	}
+	runQueries(d, queryPlan(rng, false, true), nil) // before Start
 	useRun := rng.Intn(4) == 0
 	var runRet atomic.Uint64
 	var runPanic atomic.Pointer[string]
@@ -74,6 +75,25 @@ func reregOne(c *vf.Ctx, seed int64, batch, iter int, race bool) {
 		d.Start()
 	}
 	curIter.Store(it)
+	nQueries := 0
+	for q, nq := 0, rng.Intn(3); q < nq; q++ { // queriers racing with worker exits and re-registrations
+		qr := rand.New(rand.NewSource(rng.Int63()))
+		plans := [][]int{queryPlan(qr, true, true), queryPlan(qr, true, true), queryPlan(qr, true, true), queryPlan(qr, true, true)}
+		gaps := []int{qr.Intn(30), qr.Intn(30), qr.Intn(30), qr.Intn(30)}
+		for _, p := range plans {
+			nQueries += len(p)
+		}
+		spinWG.Add(1)
+		go func() {
+			defer spinWG.Done()
+			for i, p := range plans {
+				gosched(gaps[i])
+				runQueries(d, p, nil)
+			}
+		}()
+	}
+	prePlan := queryPlan(rng, true, true)
+	nQueries += len(prePlan)
 
 	var attempts, whileExiting, acceptedEarly, accepted atomic.Int64
 	for i := range first {
@@ -145,6 +165,7 @@ func reregOne(c *vf.Ctx, seed int64, batch, iter int, race bool) {
 			}
 		}()
 		gosched(lead)
+		runQueries(d, prePlan, nil) // right before the shutdown request
 		it.shutReq.Store(true)
 		d.ShutdownAndWait()
 		shutRet.Store(tick())
@@ -163,6 +184,7 @@ func reregOne(c *vf.Ctx, seed int64, batch, iter int, race bool) {
 	T := shutRet.Load()
 	c.Count("stress_iterations", 1)
 	c.Count("rereg_iterations", 1)
+	c.Count("stress_query_calls", nQueries)
 	c.Count("rereg_attempts", int(attempts.Load()))
 	c.Count("rereg_attempts_while_old_worker_exiting", int(whileExiting.Load()))
 	c.Count("rereg_accepted", int(accepted.Load()))
@@ -190,6 +212,7 @@ func reregOne(c *vf.Ctx, seed int64, batch, iter int, race bool) {
 	if s := it.orderViol.Load(); s != nil {
 		viol("order:cancelled-before-higher-returned", *s)
 	}
+	reportRestart(it, viol)
 	RT := runRet.Load()
 	for _, w := range all {
 		c.Count("evaluations", 1)
